@@ -205,7 +205,20 @@ def limited(fn, *a, **k):
         return fn(*a, **k)
 
 
-def canon_geom(g, gen, flag_default=None):
+def scaled_ints(v, k):
+    """k * value as an integer (|k*v - round| < 1e-3), BAD otherwise: rows of NPultra geometry maps (F-C08-b)"""
+    out = []
+    for a in _items(v):
+        try:
+            f = float(a) * k
+            out.append(int(round(f)) if (f == f and abs(f) < 2 ** 40 and abs(f - round(f)) < 1e-3 and
+                                        isinstance(a, (int, float, np.integer, np.floating))) else BAD)
+        except Exception:
+            out.append(BAD)
+    return out
+
+
+def canon_geom(g, gen, flag_default=None, row_scale=1):
     if not hasattr(g, "keys") or any(k not in g for k in KEYS if k != "flag"):
         raise Malformed("not a geometry dictionary: %r" % (type(g).__name__ if not hasattr(g, "keys")
                                                           else sorted(map(str, g.keys())),))
@@ -215,6 +228,8 @@ def canon_geom(g, gen, flag_default=None):
             out[k] = [1] * len(g["col"]) if flag_default is None else flag_default
         elif k == "sample_shift":
             out[k] = shift_codes(g[k], gen)
+        elif k == "row" and row_scale != 1:
+            out[k] = scaled_ints(g[k], row_scale)
         else:
             out[k] = ints(g[k])
     return out
@@ -250,10 +265,13 @@ def _run_geometry(case, tdir, rng=None):
     f.write_text(txt)
     gen = case["gen"]
     obs = {}
+    rs = case.get("row_scale", 1)
 
     def q_gfm(srt):
         g, inds = spikeglx.geometry_from_meta(md, return_index=True, sort=srt)
-        return (canon_geom(g, gen), ints(inds))
+        if rs != 1:
+            obs.setdefault("unscaled", {})[srt] = (canon_geom(g, gen), ints(inds))
+        return (canon_geom(g, gen, row_scale=rs), ints(inds))
 
     def q_noindex(srt):
         return canon_geom(spikeglx.geometry_from_meta(md, sort=srt), gen)
@@ -286,6 +304,12 @@ def _run_geometry(case, tdir, rng=None):
                 plain["NP2.4_shank"] = v
                 var_ok = var_ok and q_plain(spikeglx, plain, gen) == obs[("gfm", True)]
         obs["variants_same"] = var_ok
+        if case["split"] is not None:
+            # split_trace_header applied to the parent's unsorted geometry (a dictionary with flag and ind)
+            import neuropixel
+            parent = {k: v for k, v in dict(md).items() if k != "NP2.4_shank"}
+            hp = spikeglx.geometry_from_meta(parent, sort=False)
+            obs["split_via_header"] = canon_geom(neuropixel.split_trace_header(hp, shank=case["split"]), gen)
         # the lf file of the same probe carries the same site table
         if case["enc"] != 2 and "snsApLfSy=%d,0,1" % case.get("_nsaved", -1) in txt:
             flf = tdir / ("c%d.lf.meta" % case["id"])
@@ -332,6 +356,10 @@ def oracle_geometry(case, obs):
     if not obs.get("repeat_same", True):
         bad.append(("entry_points", "the same geometry query asked twice in one process gives two answers "
                                     "(order of queries %s)" % obs.get("query_order")))
+    if "split_via_header" in obs:
+        sv = obs["split_via_header"]
+        if any(sv[k] != gu[k] for k in KEYS if k != "ind") or sv["ind"] != keep:
+            bad.append(("split", "split_trace_header(parent geometry, shank) is not the geometry of the split file"))
     if not obs.get("variants_same", True):
         bad.append(("entry_points", "file name as str / plain dict / NP2.4_shank as int, numpy integer or str "
                                     "changes the geometry"))
@@ -463,7 +491,7 @@ def enc_case_input(case, srt):
 
 def describe(case, srt=None):
     d = {k: case[k] for k in ("gen", "sites", "enc", "split", "template") if k in case}
-    for k in ("type_code", "subset_text", "orig_channels", "kind", "nsaved"):
+    for k in ("type_code", "subset_text", "orig_channels", "kind", "nsaved", "row_scale", "entries_override"):
         if case.get(k) is not None:
             d[k] = case[k]
     if srt is not None:
@@ -513,7 +541,8 @@ def run(ctx):
             "trace_header": 0, "adc_shifts": 0, "rcxy": 0, "map_texts": 0, "map_texts_malformed": 0,
             "map_texts_valueerror": 0, "map_texts_ambiguous_skipped": 0, "npultra_geom_maps": 0,
             "file_texts": 0, "file_texts_raise": 0, "file_texts_nogeometry": 0, "file_texts_crlf": 0,
-            "file_texts_duplicate_map": 0}
+            "file_texts_duplicate_map": 0, "unsupported_arguments": 0, "nc_argument": 0, "reader_without_meta": 0,
+            "dense_layout_direct": 0, "rcxy_scalar_or_typed": 0}
     nontrivial = set()
     samples = []
     evaluations = 0
@@ -658,6 +687,7 @@ def run(ctx):
                     evaluations += 1
             # ---------------- trace_header / split_trace_header / adc_shifts / rc2xy / xy2rc ----------------
             evaluations += run_layouts(ctx, inputs, outputs, descr, dist, tdir)
+            evaluations += run_arguments(ctx, inputs, outputs, descr, dist, tdir)
             evaluations += run_parser(ctx, inputs, outputs, descr, dist)
             evaluations += run_npultra_geom(ctx, inputs, outputs, descr, dist, tdir)
             evaluations += run_files(ctx, inputs, outputs, descr, dist, tdir)
@@ -838,6 +868,134 @@ def run_layouts(ctx, inputs, outputs, descr, dist, tdir):
     return nev
 
 
+UNSUPPORTED = 9      # Run.v: a version value the code has no branch for
+
+
+def run_arguments(ctx, inputs, outputs, descr, dist, tdir):
+    """Round 4 (coverage / parameter audit): argument values the other streams leave at their defaults or never
+    reach — unsupported version / nshank values (the arcs of dense_layout and adc_shifts that end in an
+    exception), dense_layout called directly, scalar / float32 / int16 arguments of rc2xy and xy2rc, the nc
+    argument of geometry_from_meta, Reader without a meta file."""
+    import neuropixel
+    import spikeglx
+    nev = 0
+    # -- trace_header / dense_layout: every (version, nshank) class
+    for ver, code, nshank in [(2, 1, 2), (2.4, 2, 3), (2, 1, 0), (2.1, 1, -1), (3, UNSUPPORTED, 1),
+                              (0, UNSUPPORTED, 1), (1.5, UNSUPPORTED, 1), (3.0, UNSUPPORTED, 4),
+                              (1, 0, 3), (1.0, 0, 4), ("NPultra", 3, 4), (2.0, 1, 1), (np.float64(2.4), 2, 4)]:
+        d = {"fn": "trace_header", "version": ver, "nshank": nshank}
+        with guard(ctx, d, "trace_header with unusual arguments"):
+            gen = {0: "NP1", 1: "NP2.1", 2: "NP2.4", 3: "NPultra"}.get(code, "NP1")
+            try:
+                h = neuropixel.trace_header(version=ver, nshank=nshank)
+                out = [1] + flat_geom(canon_geom(h, gen))
+                dl = neuropixel.dense_layout(version=ver, nshank=nshank)
+                if any(ints(dl[k]) != ints(h[k]) for k in ("ind", "row", "shank", "col", "x", "y")):
+                    ctx.fail("dense_layout and trace_header disagree", d, {"clause": "canonical"})
+                dist["dense_layout_direct"] += 1
+            except (KeyError, UnboundLocalError, TypeError) as e:
+                out = [0]
+            inputs.append([1, code, nshank, -1])
+            outputs.append(out)
+            descr.append(d)
+            nev += 1
+            dist["unsupported_arguments"] += out == [0]
+    # -- adc_shifts: versions without a branch
+    for ver in (3, 0, 1.5, 3.0, -1):
+        d = {"fn": "adc_shifts", "version": ver, "nc": 384}
+        with guard(ctx, d, "adc_shifts with an unsupported version"):
+            try:
+                sh, adc = neuropixel.adc_shifts(version=ver)
+                out = [1, len(ints(adc))] + shift_codes(sh, "NP1") + ints(adc)
+            except (UnboundLocalError, KeyError, TypeError):
+                out = [0]
+            inputs.append([2, UNSUPPORTED, 384])
+            outputs.append(out)
+            descr.append(d)
+            nev += 1
+            dist["unsupported_arguments"] += out == [0]
+    # -- rc2xy / xy2rc: scalars, float32 and int16 arrays, an unsupported version
+    rng = ctx.rng
+    for gen in GEN_CODE:
+        dx, x0, dy, y0 = GRID[gen]
+        ver = VERSION_ARG[gen][-1]
+        for kind in ("scalar", "float32", "int16"):
+            a = [rng.randrange(0, 40) * dy + y0] if kind == "scalar" else [rng.randrange(0, 600) for _ in range(5)]
+            b = [rng.randrange(0, 8) * dx + x0] if kind == "scalar" else [rng.randrange(0, 600) for _ in range(5)]
+            d = {"fn": "rc2xy/xy2rc", "version": ver, "a": a, "b": b, "kind": kind}
+            with guard(ctx, d, "rc2xy / xy2rc"):
+                conv = {"scalar": lambda v: v[0], "float32": lambda v: np.array(v, dtype=np.float32),
+                        "int16": lambda v: np.array(v, dtype=np.int16)}[kind]
+                xy = neuropixel.rc2xy(conv(a), conv(b), version=ver)
+                rc = neuropixel.xy2rc(conv(a), conv(b), version=ver)
+                col, row = np.atleast_1d(rc["col"]).astype(float), np.atleast_1d(rc["row"]).astype(float)
+
+                def num(v, den):
+                    m = int(round(float(v) * den))
+                    return m if abs(float(m) / den - float(v)) <= 1e-6 * max(1.0, abs(float(v))) else BAD
+                out = ints(np.atleast_1d(xy["x"])) + ints(np.atleast_1d(xy["y"])) + [dx, dy]
+                out += [num(v, dx) for v in col] + [num(v, dy) for v in row]
+                for v, den in [(v, dx) for v in col] + [(v, dy) for v in row]:
+                    m = num(v, den)
+                    out += [1, m // den] if (m != BAD and m % den == 0) else [0]
+                inputs.append([3, GEN_CODE[gen], len(a)] + a + b)
+                outputs.append(out)
+                descr.append(d)
+                nev += 1
+                dist["rcxy_scalar_or_typed"] += 1
+    for ver in (3, 0, "3A", None):
+        d = {"fn": "rc2xy/xy2rc", "version": ver}
+        with guard(ctx, d, "rc2xy / xy2rc with an unsupported version"):
+            try:
+                neuropixel.rc2xy(np.array([1]), np.array([1]), version=ver)
+                neuropixel.xy2rc(np.array([1]), np.array([1]), version=ver)
+                out = [1]
+            except (KeyError, TypeError):
+                out = [0]
+            inputs.append([3, UNSUPPORTED, 1, 1, 1])
+            outputs.append(out)
+            descr.append(d)
+            nev += 1
+            dist["unsupported_arguments"] += out == [0]
+    # -- the nc argument of geometry_from_meta (used only for the index of the no-table fallback)
+    for gen in GEN_CODE:
+        for nc in (0, 100, 500):
+            case = make_case(rng, 700000 + nev, gen, [], 2, None, kind="default_nc", nsaved=384)
+            d = dict(describe(case), nc=nc)
+            with guard(ctx, d, "geometry_from_meta(nc=...)"):
+                f = tdir / "nc.ap.meta"
+                f.write_text(meta_text(case))
+                md = spikeglx.read_meta_data(f)
+                for srt in (False, True):
+                    g, inds = spikeglx.geometry_from_meta(md, return_index=True, nc=nc, sort=srt)
+                    inp = enc_case_input(case, srt)
+                    inp[4] = nc
+                    inputs.append(inp)
+                    outputs.append([1] + flat_geom(canon_geom(g, gen)) + ints(inds))
+                    descr.append(dict(d, sort=srt))
+                    nev += 1
+                dist["nc_argument"] += 1
+    # -- Reader on a binary without any meta file: the NP1 canonical layout
+    for nchan in (384, 385):
+        d = {"fn": "Reader without meta file", "nc": nchan}
+        with guard(ctx, d, "Reader without a meta file"):
+            fb = tdir / ("nometa%d.bin" % nchan)
+            fb.write_bytes(bytes(nchan * 2 * 4))
+            sr = spikeglx.Reader(fb, open=False)
+            cg = canon_geom(sr.geometry, "NP1")
+            ref = canon_geom(neuropixel.trace_header(version=1), "NP1")
+            if cg != ref or int(sr.nc) != nchan:
+                ctx.fail("Reader without meta data does not carry the NP1 canonical geometry", d,
+                         {"clause": "canonical"})
+            inputs.append([1, 0, 1, -1])
+            outputs.append([1] + flat_geom(cg))
+            descr.append(d)
+            nev += 1
+            dist["reader_without_meta"] += 1
+            fb.unlink()
+    return nev
+
+
 def parse_impl(text, key):
     """_map_channels_from_meta on one map string -> flat encoding of Run.v mode 4."""
     import spikeglx
@@ -932,17 +1090,18 @@ def run_npultra_geom(ctx, inputs, outputs, descr, dist, tdir):
         ref = make_case(rng, 800000 + nev, "NPultra", sites, 0, None, kind="npultra_geom")
         case = make_case(rng, 800100 + nev, "NPultra", sites, 0, None, kind="npultra_geom")
         case["enc"] = 1
+        case["row_scale"] = 6      # rows are compared as 6 * row (the model's ROW6 column)
         case["entries"] = [[s[0], 6 * s[1], 6 * s[2], s[3]] for s in sites]
         try:
             o_ref, o = run_geometry(ref, tdir, rng), run_geometry(case, tdir, rng)
         except Exception as e:
             ctx.fail("NPultra geometry raised %r" % (e,), describe(case), {"clause": "exception"})
             continue
-        same = all(o[k] == o_ref[k] for k in (("gfm", False), ("gfm", True)))
+        same = all(o.get("unscaled", {}).get(srt) == o_ref[("gfm", srt)] for srt in (False, True))
         if same:
             continue            # the defect has been repaired: the property holds here, nothing to compare
         ctx.fail("NPultra: the geometry-map encoding gives another geometry than the shank-map encoding "
-                 "(rows %s...)" % (o[("gfm", False)][0]["row"][:3],), describe(case),
+                 "(6 * row = %s...)" % (o[("gfm", False)][0]["row"][:3],), describe(case),
                  {"clause": "encodings", "gen": "NPultra"})
         for srt in (False, True):
             g, inds = o[("gfm", srt)]
@@ -958,9 +1117,11 @@ def run_npultra_geom(ctx, inputs, outputs, descr, dist, tdir):
 VERSION_LINES = {
     "NP1": [["typeEnabled=imec"], ["imDatPrb_type=0"], ["imDatPrb_type=0", "imDatPrb_port=1", "imDatPrb_slot=2"]],
     "NP2.1": [["imDatPrb_type=21"], ["imDatPrb_type=1030"]],
-    "NP2.4": [["imDatPrb_type=24"], ["imDatPrb_type=2013"]],
+    "NP2.4": [["imDatPrb_type=24"], ["imDatPrb_type=2013"], ["imDatPrb_type=24.0"]],
     "NPultra": [["imDatPrb_type=1100"]],
 }
+# no probe version can be derived: nothing at all, or a probe-type number the code does not know
+NO_VERSION_LINES = [[], [], ["imDatPrb_type=1123"], ["imDatPrb_type=22"], ["imDatPrb_type=NP1010"]]
 FILLER = ["typeThis=imec", "imSampRate=30000", "fileTimeSecs=1.5", "imAiRangeMax=0.6", "userNotes=",
           "imDatPrb_sn=19011116954", "acqApLfSy=384,0,1", "~imroTbl=(0,384)(0 0 0 500 250 1)", "gateMode=Immediate",
           "snsSaveChanSubset=0:3,384", "imMaxInt=512", "fileName=D:/data/x_g0_t0.imec0.ap.bin"]
@@ -979,6 +1140,12 @@ def run_files(ctx, inputs, outputs, descr, dist, tdir):
         has_version = rng.random() < 0.9
         if has_version:
             lines += rng.choice(VERSION_LINES[gen])
+            if gen == "NP1" and rng.random() < 0.2:
+                lines.append("imDatPrb_type=24")     # typeEnabled (3A) has priority over any probe type
+                if "typeEnabled=imec" not in lines:
+                    lines.append("typeEnabled=imec")
+        else:
+            lines += rng.choice(NO_VERSION_LINES)
         mode = rng.choice(["table", "table", "table", "table", "dup", "both", "nomap", "empty", "bad"])
         enc = 0 if gen == "NPultra" else rng.choice([0, 1])
         key = ["snsShankMap", "snsGeomMap"][enc]
@@ -1114,7 +1281,9 @@ def replay(ctx, data):
     rng = ctx.rng
     case = make_case(rng, 0, inp["gen"], [tuple(s) for s in inp["sites"]], inp["enc"], inp.get("split"),
                      template=inp.get("template"), type_code=inp.get("type_code"),
-                     **{k: inp[k] for k in ("subset_text", "orig_channels", "nsaved") if k in inp})
+                     **{k: inp[k] for k in ("subset_text", "orig_channels", "nsaved", "row_scale") if k in inp})
+    if inp.get("row_scale"):        # NPultra geometry map: entries are (shank, 6*col, 6*row, flag)
+        case["entries"] = [[s_[0], 6 * s_[1], 6 * s_[2], s_[3]] for s_ in inp["sites"]]
     tdir = common.tmpdir("C08_")
     try:
         try:
